@@ -17,6 +17,11 @@ CLAIMED["C02"] = ("finite-domain abstract interpretation of the iterator loop (t
     "Complete decision of the per-boundary transition table of the token iterator over (label x skip flag), of the "
     "position forms base+i+1 in the loop-invariant header state, and of the structural facts that the writer goes through "
     "the iterator and that surface/tags slices use (start,end). Value-level concatenation is not decided.", "DESIGN.md §4 C02")
+CLAIMED["C01"] = ("finite-domain abstract interpretation (decision table), linear forms, must-call pipeline, iterator/merge pairing table",
+    "Complete decision of the threshold clause (score sign -> label, every boundary overwritten, never Unknown) and "
+    "structural necessary conditions of the scoring clause: padding/resize/zip forms, bias fill, scorer pipeline and "
+    "dispatcher totality, no-suffix iterator <-> suffix-merged weights pairing, add_score position/offset forms. "
+    "Numeric equality of the sums is not decided.", "DESIGN.md §4 C01")
 NOT_YET = {}
 
 def main():
